@@ -129,6 +129,12 @@ def ctxRead (captured : List (Nat × Int)) (x : Nat) : Option Int :=
   | some i => (ctxLayout captured)[i]?
   | none => none
 
+/-- The capture map itself (`HashMap::get`). -/
+def ctxLookup (captured : List (Nat × Int)) (x : Nat) : Option Int :=
+  match captured with
+  | [] => none
+  | (y, v) :: rest => if x = y then some v else ctxLookup rest x
+
 /-! ## Numbering in enumeration order -/
 
 /-- Items receive consecutive numbers in the order in which they are enumerated. -/
